@@ -299,7 +299,7 @@ def gen_cases(run, binary_unused=None):
     add = cases.append
 
     # ---- A. sort / uniq / set
-    small = [0, NEGZ, 1, "a", None, [1], [1, 2]]
+    small = [0, NEGZ, 1, "a", None, [1], [1, 2]] if thorough else [0, NEGZ, 1, "a", None, [1]]
     for arr in all_arrays(small, 3):
         for fn in ("CSort", "CUniq", "CSet"):
             add((fn, arr, None))
@@ -307,7 +307,7 @@ def gen_cases(run, binary_unused=None):
         for fn in ("CSort", "CSet"):
             for k in ("FIdSlow", "FNeg", "FToStr"):
                 add((fn, arr, k))
-    for _ in range(900 * mul):
+    for _ in range(500 * mul):
         add((rng.choice(["CSort", "CUniq", "CSet"]), rand_arr(rng, L), rng.choice(KEYS)))
     for bad in (3, "ab", None, OBJ):
         for fn in ("CSort", "CUniq", "CSet"):
@@ -325,7 +325,7 @@ def gen_cases(run, binary_unused=None):
     raw = []
     set_keys = [None, "FId", "FIdSlow", "FNeg", "FMod2", "FFirst", "FToStr", "FWrap", "FLen", "FConst"]
     for k in set_keys:
-        for _ in range(9 if not thorough else 16):
+        for _ in range(7 if not thorough else 16):
             alpha = rng.choice(SUB_ALPHABETS)
             raw.append((k, rand_arr(rng, L + 1, alpha), alpha))
         raw.append((k, [], ALPHABET))
@@ -344,7 +344,7 @@ def gen_cases(run, binary_unused=None):
                     add((fn, a, b, k))
             for x in alpha + [rng.choice(ALPHABET)]:
                 add(("CSetMember", x, a, k))
-    for _ in range(500 * mul):      # arguments that are not sets, partial keys
+    for _ in range(400 * mul):      # arguments that are not sets, partial keys
         fn = rng.choice(["CSetUnion", "CSetInter", "CSetDiff"])
         alpha = rng.choice(SUB_ALPHABETS)
         add((fn, rand_arr(rng, L, alpha), rand_arr(rng, L, alpha), rng.choice(KEYS)))
@@ -357,7 +357,7 @@ def gen_cases(run, binary_unused=None):
     add(("CSetMember", 1, "a", None))
 
     # ---- C. membership / find / count / remove / removeAt
-    for _ in range(700 * mul):
+    for _ in range(500 * mul):
         alpha = rng.choice(SUB_ALPHABETS)
         arr = rand_arr(rng, L, alpha)
         x = rng.choice(alpha if rng.chance(0.8) else ALPHABET)
@@ -392,19 +392,19 @@ def gen_cases(run, binary_unused=None):
     # ---- E. folds, maps, filters
     def items(rng):
         return rng.choice(STRS + ["abc"]) if rng.chance(0.15) else rand_arr(rng, L)
-    for _ in range(700 * mul):
+    for _ in range(500 * mul):
         f2 = rng.choice(FN2S)
         init = rng.choice([[], 0, "z", None, [9]]) if f2 not in ("F2Add",) else rng.choice([0, NEGZ, 5])
         add((rng.choice(["CFoldl", "CFoldr"]), f2, items(rng), init))
-    for _ in range(500 * mul):
+    for _ in range(350 * mul):
         add(("CMap", rng.choice(MAPPERS), items(rng)))
     for _ in range(250 * mul):
         add(("CMapWithIndex", rng.choice(FN2S), items(rng)))
-    for _ in range(400 * mul):
+    for _ in range(300 * mul):
         add(("CFilter", rng.choice(PREDS), rand_arr(rng, L)))
     for _ in range(250 * mul):
         add(("CFilterMap", rng.choice(PREDS), rng.choice(MAPPERS), rand_arr(rng, L)))
-    for _ in range(400 * mul):
+    for _ in range(300 * mul):
         add(("CFlatMap", rng.choice(FLATMAPPERS), items(rng)))
     for bad in (3, None, OBJ, True):
         add(("CFoldl", "F2Pair", bad, 0))
@@ -419,7 +419,7 @@ def gen_cases(run, binary_unused=None):
 
     # ---- F. join / lines / deepJoin
     piece_pools = [["a", "b", "", None], [[1], [], [1, 2], None], ["a", None, [1], 1], ["a", "b"], [[0], [NEGZ]]]
-    for _ in range(500 * mul):
+    for _ in range(400 * mul):
         pool = rng.choice(piece_pools)
         sep = rng.choice([",", "", "ab", [], [0], ["s", None], 1, None, OBJ])
         add(("CJoin", sep, rand_arr(rng, L, pool)))
@@ -467,7 +467,7 @@ def gen_cases(run, binary_unused=None):
     for what in ([], [1], [1, "a"], "", "ab", "a", 3, None, OBJ):
         for n in range(-1, 4):
             add(("CRepeat", what, n))
-    for _ in range(500 * mul):
+    for _ in range(400 * mul):
         v = rng.choice(STRS + ["abcde", "abc"]) if rng.chance(0.35) else rand_arr(rng, L)
         n = len(v)
         pos = lambda: None if rng.chance(0.2) else rng.randint(-3, n + 3)  # noqa
@@ -485,6 +485,28 @@ KNOWN_SUM = "C10-sum-empty-negzero"
 KNOWN_SORT = "C10-sort-identity-unstable-signed-zero"
 
 
+MODEL_BATCH = 20
+
+
+def eval_model(cases):
+    """[run_case c] for every case, MODEL_BATCH cases per `Eval vm_compute` (one list); a batch that
+    does not come back as a list of the right length is re-evaluated case by case."""
+    groups = [cases[i:i + MODEL_BATCH] for i in range(0, len(cases), MODEL_BATCH)]
+    res = core.coq_eval(IMPORTS, ["[" + "; ".join(f"run_case {call_coq(c)}" for c in g) + "]" for g in groups])
+    out, redo = [None] * len(cases), []
+    for gi, (g, r) in enumerate(zip(groups, res)):
+        if isinstance(r, list) and len(r) == len(g):
+            for j, x in enumerate(r):
+                out[gi * MODEL_BATCH + j] = x
+        else:
+            redo.extend(range(gi * MODEL_BATCH, gi * MODEL_BATCH + len(g)))
+    if redo:
+        single = core.coq_eval(IMPORTS, [f"run_case {call_coq(cases[i])}" for i in redo])
+        for i, x in zip(redo, single):
+            out[i] = x
+    return out
+
+
 def correspond(run, binary, cases):
     failures, model_diffs = [], []
     seen, uniq = set(), []
@@ -495,7 +517,7 @@ def correspond(run, binary, cases):
             uniq.append(c)
     cases = uniq
     run.log(f"{len(cases)} distinct calls")
-    model = core.coq_eval(IMPORTS, [f"run_case {call_coq(c)}" for c in cases])
+    model = eval_model(cases)
     run.log("model evaluated")
     outs = run_code(run, binary, cases, model)
     run.log("harness done")
@@ -606,9 +628,11 @@ def search(run, binary):
     old = run.tier
     run.tier = "thorough"
     try:
-        cases = gen_cases(run)[:60000]
+        cases = gen_cases(run)
     finally:
         run.tier = old
+    run.rng.fork("search").shuffle(cases)      # every family stays represented under the cap
+    cases = cases[:25000]
     f, _ = correspond(run, binary, cases)
     return f
 
